@@ -155,7 +155,7 @@ package delegation
 //@ func (*Token).toIPLD
 //@   requires canSeal(t, privKey)
 //@   assumes result1 == nil ==> result0 == sealedNoded(t, privKey, old(signings(privKey)))
-//@   assigns signings(privKey)
+//@   assigns [C20] signings(privKey)
 //@   ensures [C08,C18] once: result1 == nil ==> signings(privKey) == old(signings(privKey)) + 1
 //@   ensures nonnil: result1 == nil ==> result0 != nil
 //@   ensures [C07] model: result1 == nil ==> sealedModel(result0) is *tokenPayloadModel && sealedModel(result0).(*tokenPayloadModel) != nil && modelOf(sealedModel(result0).(*tokenPayloadModel), t)
@@ -171,27 +171,27 @@ package delegation
 //@ func (*Token).Encode
 //@   requires canSeal(t, privKey)
 //@   ensures [C08,C18] bytes: result1 == nil ==> bytes(result0) == encodeWith(encFn, sealedNoded(t, privKey, old(signings(privKey))))
-//@   assigns signings(privKey)
+//@   assigns [C20] signings(privKey)
 //@   ensures [C08,C18] once: result1 == nil ==> signings(privKey) == old(signings(privKey)) + 1
 //@ func (*Token).ToSealed
 //@   requires canSeal(t, privKey)
 //@   ensures [C08] cid: result2 == nil ==> result1 == ucanCid(bytes(result0))
 //@   ensures [C08,C18] bytes: result2 == nil ==> bytes(result0) == encodeWith(dagcbor.Encode, sealedNoded(t, privKey, old(signings(privKey))))
-//@   assigns signings(privKey)
+//@   assigns [C20] signings(privKey)
 //@   ensures [C08,C18] once: result2 == nil ==> signings(privKey) == old(signings(privKey)) + 1
 //@ func (*Token).EncodeWriter
 //@   inline
 //@   requires canSeal(t, privKey) && w != nil
 //@   ensures [C18] bytes: result == nil ==> written(w) == old(written(w)) ++ encodeWith(encFn, sealedNoded(t, privKey, old(signings(privKey)))) && wfailed(w) == old(wfailed(w))
 //@   ensures [C08,C18] once: result == nil ==> signings(privKey) == old(signings(privKey)) + 1
-//@   assigns written(w), wfailed(w), signings(privKey)
+//@   assigns [C20] written(w), wfailed(w), signings(privKey)
 //@ func (*Token).ToSealedWriter
 //@   requires canSeal(t, privKey) && w != nil
 //@   use cid_sum_sha256
 //@   ensures [C18] bytes: result1 == nil ==> written(w) == old(written(w)) ++ encodeWith(dagcbor.Encode, sealedNoded(t, privKey, old(signings(privKey)))) && wfailed(w) == old(wfailed(w))
 //@   ensures [C08,C18] cid: result1 == nil ==> result0 == ucanCid(encodeWith(dagcbor.Encode, sealedNoded(t, privKey, old(signings(privKey)))))
 //@   ensures [C08,C18] once: result1 == nil ==> signings(privKey) == old(signings(privKey)) + 1
-//@   assigns written(w), wfailed(w), signings(privKey)
+//@   assigns [C20] written(w), wfailed(w), signings(privKey)
 //@ func DecodeReader
 //@   inline
 //@   requires r != nil && decFn != nil
